@@ -774,11 +774,11 @@ Proof.
     assert (Ec : c = [(calc_id ex_fr ex_u0, ex_u0); (calc_id ex_fr ex_u1, ex_u1)]) by congruence.
     rewrite Ec. apply sound_two.
   - intros i Hi. rewrite HL in Hi. destruct Hi as [<-|[]].
-    rewrite <- Ef. vm_compute. eexists _, _. repeat split; reflexivity.
+    rewrite <- Ef. exists (sp_content ex_fr ex_u1), ex_u1. repeat split; vm_compute; reflexivity.
   - intros c Hc. rewrite HC in Hc.
     assert (Ec : c = [(calc_id ex_fr ex_u0, ex_u0); (calc_id ex_fr ex_u1, ex_u1)]) by congruence.
     rewrite Ec. change (NoDup [calc_id ex_fr ex_u0; calc_id ex_fr ex_u1]).
-    constructor; [intros [H|[]]; exact (ex_ids_differ H)|]. constructor; [intros []|constructor].
+    constructor; [intros [H|[]]; exact (ex_ids_differ (eq_sym H))|]. constructor; [intros []|constructor].
   - rewrite <- Ef. vm_compute. reflexivity.
 Qed.
 
